@@ -1,8 +1,8 @@
 #!/bin/sh
 # All behaviour-preserving probes: any "Cnn 1" line is a false alarm; "Cnn 2" means no verdict on the transformed tree.
 cd "$(dirname "$0")/.."
-for t in reformat_check rename_check inchain_check yoda_check; do
+for t in reformat_check rename_check inchain_check yoda_check parallel_check; do
   echo "== $t"; /venv/bin/python tools/$t.py 2>&1 | grep "^C[0-9][0-9] [12]" | cut -c1-200
 done
 echo "== refactorings"; python3 tools/run_refactorings.py | tail -1
-rm -rf /tmp/reformat_ev /tmp/rename_ev /tmp/inchain_ev /tmp/yoda_ev
+rm -rf /tmp/parallel_ev /tmp/reformat_ev /tmp/rename_ev /tmp/inchain_ev /tmp/yoda_ev
